@@ -15,6 +15,11 @@ try:
     gen_state.generate()
 except Exception as e:  # a changed source shape is reported by the check itself
     sys.stderr.write("gen_state: %s\n" % e)
+try:
+    import gen_consts
+    gen_consts.generate()
+except Exception as e:
+    sys.stderr.write("gen_consts: %s\n" % e)
 def write_roots():
     """root modules importing every project module, so that a bare `lake build` checks everything"""
     lean = os.path.join(VERIF, "lean")
